@@ -67,6 +67,7 @@ def find_cmd_strings(data: bytes) -> list[Node]:
             if parens < 0:
                 full_cmd = full_cmd[:i]
                 end = start + i
+                break
         deobfuscated, obfuscation = deobfuscate_cmd(full_cmd)
 
         split = deobfuscated.split()
